@@ -1,7 +1,134 @@
+(* C15 — property theorems (statements only; proofs in ProofsHist.v / ProofsDist.v / ExecProofs.v).
+
+   Reading guide.  [O : FloatOps] is any floating-point interface; the hypotheses on it are
+   stated in each theorem ([fle] transitive; a value that is <= nothing, i.e. NaN).  [hfinal h0 ops]
+   is the model of Histogram after the operations [ops] (record / record_many);
+   [count_le O b samples] is the number of samples s with s <= b (Spec.v).  [db_new] / [get_distribution]
+   model DistributionBuilder; [held] is the set of overrides it holds (sanitised, de-duplicated).
+   [rfinal] / [rs_snapshot] model RollingSummary.                                                *)
 From Coq Require Import List NArith Bool.
 Import ListNotations.
-Require Import MV.C15.Model MV.C15.Spec MV.C15.Exec.
+Require Import MV.C15.Model MV.C15.Spec MV.C15.Exec MV.C15.ProofsHist MV.C15.ProofsDist MV.C15.ExecProofs.
 Open Scope N_scope.
 
-Theorem C15_placeholder : True.
-Proof. exact I. Qed.
+Theorem C15_bucket_counts : forall (O : FloatOps),
+  (forall a b c : F O, fle O a b = true -> fle O b c = true -> fle O a c = true) ->
+  forall bounds h0 ops, hist_new O bounds = Some h0 -> ascending O bounds = true ->
+  h_buckets O (hfinal O h0 ops) = map (fun b => count_le O b (all_samples O ops)) bounds
+  /\ h_count O (hfinal O h0 ops) = N.of_nat (length (all_samples O ops))
+  /\ h_bounds O (hfinal O h0 ops) = bounds.
+Proof. exact bucket_counts. Qed.
+
+Theorem C15_count_is_number_of_samples : forall (O : FloatOps) bounds h0 ops, hist_new O bounds = Some h0 ->
+  h_count O (hfinal O h0 ops) = N.of_nat (length (all_samples O ops)).
+Proof. exact count_total. Qed.
+
+Theorem C15_counts_monotone_in_bound : forall (O : FloatOps),
+  (forall a b c : F O, fle O a b = true -> fle O b c = true -> fle O a c = true) ->
+  forall a b samples, fle O a b = true -> count_le O a samples <= count_le O b samples.
+Proof. exact monotone_in_bound. Qed.
+
+Theorem C15_counts_monotone_in_time : forall (O : FloatOps) b samples more,
+  count_le O b samples <= count_le O b (samples ++ more).
+Proof. exact monotone_in_time. Qed.
+
+Theorem C15_every_bucket_at_most_inf_bucket : forall (O : FloatOps) b samples,
+  count_le O b samples <= N.of_nat (length samples).
+Proof. exact bucket_le_count. Qed.
+
+Theorem C15_nan_in_no_bucket : forall (O : FloatOps) s samples b, (forall x, fle O s x = false) ->
+  count_le O b (samples ++ [s]) = count_le O b samples.
+Proof. exact nan_in_no_bucket. Qed.
+
+Theorem C15_batch_equals_single : forall (O : FloatOps),
+  (forall a b c : F O, fle O a b = true -> fle O b c = true -> fle O a c = true) ->
+  forall bounds h0 ops1 ops2, hist_new O bounds = Some h0 -> ascending O bounds = true ->
+  all_samples O ops1 = all_samples O ops2 ->
+  h_buckets O (hfinal O h0 ops1) = h_buckets O (hfinal O h0 ops2)
+  /\ h_count O (hfinal O h0 ops1) = h_count O (hfinal O h0 ops2).
+Proof. exact batch_equals_single. Qed.
+
+(* FULL STATEMENT AIMED AT:  forall c, gwf O c = true -> gspec_ok O c (grun_case O c) = true.
+   Proved for the histogram cases; for override and rolling-summary cases spec_ok is evaluated on
+   the implementation's output of every generated case, but not proved of the model for all cases. *)
+Theorem C15_spec_ok_on_model_partial : forall (O : FloatOps),
+  (forall a b c : F O, fle O a b = true -> fle O b c = true -> fle O a c = true) ->
+  (forall a : F O, fsame O a a = true) ->
+  forall bounds ops, gspec_ok O (CHist O bounds ops) (grun_case O (CHist O bounds ops)) = true.
+Proof. exact spec_ok_on_model_hist. Qed.
+
+Theorem C15_spec_ok_sound_hist : forall (O : FloatOps) bounds done cs cnt sm,
+  snap_ok O bounds done (cs, cnt, sm) = true ->
+  cnt = N.of_nat (length (all_samples O done))
+  /\ fsame O sm (spec_sum O done) = true
+  /\ (ascending O bounds = true -> cs = map (fun b => count_le O b (all_samples O done)) bounds).
+Proof. exact snap_ok_sound. Qed.
+
+(* FULL STATEMENT AIMED AT:  get_distribution (db_new true san global ovs) key = spec_choice san global name ovs
+   (least applying matcher in the order Full < Prefix < Suffix, then by pattern).  Proved: the
+   chosen bounds belong to a held override that matches and whose KIND is minimal among the held
+   overrides that match (Full before Prefix before Suffix); no match => global buckets, else summary.
+   Not proved: the order by pattern within one kind, and [matches] = [applies] of Spec.v. *)
+Theorem C15_override_precedence_partial : forall (O : FloatOps) fixed san global ovs name,
+  match get_distribution O (db_new O fixed san global ovs) name with
+  | Some b =>
+      (exists m, In (m, b) (held O fixed san ovs) /\ matches fixed m name = true /\
+                 forall x, In x (held O fixed san ovs) -> matches fixed (fst x) name = true ->
+                           mrank (fst m) <= mrank (fst (fst x)))
+      \/ ((forall x, In x (held O fixed san ovs) -> matches fixed (fst x) name = false) /\ global = Some b)
+  | None => (forall x, In x (held O fixed san ovs) -> matches fixed (fst x) name = false) /\ global = None
+  end.
+Proof. exact override_precedence. Qed.
+
+Theorem C15_type_histogram_iff_distribution_histogram : forall (O : FloatOps) (d : dbuilder O) name,
+  get_distribution_type O d name = true <-> get_distribution O d name <> None.
+Proof. exact type_iff_histogram. Qed.
+
+Theorem C15_matcher_sound_prefix : forall fixed p r,
+  matches fixed (matcher_sanitized fixed (MPrefix, p)) (sanitize_name (p ++ r)) = true.
+Proof. exact prefix_sound. Qed.
+
+Theorem C15_matcher_sound_full : forall fixed n,
+  matches fixed (matcher_sanitized fixed (MFull, n)) (sanitize_name n) = true.
+Proof. exact full_sound. Qed.
+
+(* FULL STATEMENT AIMED AT: also for pre = [] (the suffix is the whole name; handled in the code by
+   the second disjunct of Matcher::matches, exercised by the correspondence runs, not proved). *)
+Theorem C15_matcher_sound_suffix_partial : forall pre p, pre <> [] ->
+  matches true (matcher_sanitized true (MSuffix, p)) (sanitize_name (pre ++ p)) = true.
+Proof. exact suffix_sound_proper. Qed.
+
+Theorem C15_matcher_suffix_refuted_before_fix : exists pre p, pre <> [] /\
+  matches false (matcher_sanitized false (MSuffix, p)) (sanitize_name (pre ++ p)) = false.
+Proof. exact suffix_unsound_before_fix. Qed.
+
+Theorem C15_suffix_override_refuted_before_fix :
+  exists c : gcase ZO, (match c with CDist _ fixed _ _ _ _ => fixed = false | _ => False end)
+                       /\ gspec_ok ZO c (grun_case ZO c) = false.
+Proof. exact suffix_refuted_before_fix. Qed.
+
+(* FULL STATEMENT AIMED AT (C15_window): for non-decreasing timestamps a snapshot contains no sample
+   older than now - n*dur and every sample at least as new as now - n*dur + dur, and truncate never
+   evicts an unexpired bucket.  Proved: the three facts below (count; which buckets a snapshot
+   merges; where a new bucket begins).  Not proved: the invariant tying each retained value to the
+   timestamp it was added with — that part is checked per case by spec_ok (window_ok). *)
+Theorem C15_window_count_counts_all : forall (O : FloatOps) ops r,
+  r_count O (rfinal O r ops) = r_count O r + adds O ops.
+Proof. exact count_counts_all. Qed.
+
+Theorem C15_window_snapshot_merges_unexpired_partial : forall (O : FloatOps) (r : rsum O) now v,
+  In v (rs_snapshot O r now) <->
+  exists b, In b (r_buckets O r) /\ In v (rb_vals O b) /\
+            (r_maxdur O r <= now -> now - r_maxdur O r < rb_begin O b).
+Proof. exact snapshot_merges_unexpired. Qed.
+
+Theorem C15_window_new_bucket_covers_sample_partial : forall dur reftime now, 0 < dur -> reftime <= now ->
+  next_begin dur reftime now <= now /\ now < next_begin dur reftime now + dur.
+Proof. exact next_begin_covers. Qed.
+
+(* the order hypotheses are satisfiable (integers with a NaN-like element) on a non-trivial case *)
+Theorem C15_hypotheses_satisfiable :
+  (forall a b c : F ZO, fle ZO a b = true -> fle ZO b c = true -> fle ZO a c = true)
+  /\ (forall a : F ZO, fsame ZO a a = true)
+  /\ (forall x : F ZO, fle ZO None x = false).
+Proof. exact (conj zle_trans (conj zsame_refl znan_le_nothing)). Qed.
